@@ -164,7 +164,13 @@ def check_tags(ctx, prog, tags):
         ctx.analysed(f)
         sws = switch_on_type(f, prog)
         if not sws:
-            ctx.undecided('R-TAG', f['pq'], name + ':dispatch', fwhere(f), 'no switch on the type tag')
+            # the dispatch may be left to another of the four (operator= written as `memcpy(..); if (!isPod()) copy(v);`)
+            via = [t_ for t_, _, _ in targets if t_ != name and any(w.get('k') == 'call' and w.get('pq') == 'asl::Var::' + t_ and alias.is_this_obj(w) for w in fn_exprs(f))]
+            if via:
+                n += 1
+                ctx.ok('R-TAG', f['pq'], name + ':dispatch', fwhere(f), 'no switch of its own: the per-tag work is done by %s(), which is checked' % via[0])
+            else:
+                ctx.undecided('R-TAG', f['pq'], name + ':dispatch', fwhere(f), 'no switch on the type tag')
             continue
         sw, cases = sws[-1]
         handled = set(v for v in cases if v != 'default' and members_touched(cases[v]))
@@ -904,6 +910,11 @@ def check_strrep(ctx, prog):
                 try:
                     r.run()
                 except scansim.OOB as o:
+                    if isinstance(o.buf, tuple) and o.buf and o.buf[0] == 'V':
+                        # the access left the one-cell box of an address-taken variable (`memcpy(this, &v, sizeof(v))` copies a whole
+                        # object through its address): a limit of the object model, not an access outside a string buffer
+                        skipped.append('%s: %s' % (desc, o))
+                        continue
                     bad = '%s: %s' % (desc, o)
                     break
                 except (scansim.Unsupported, TypeError, KeyError, AttributeError) as u:
